@@ -110,47 +110,90 @@ fn a_case_json(s: &Sched, var: Option<usize>, c: &ACase) -> Value {
     json!({"part": "a", "sched": s.name, "variant": var, "label": c.label})
 }
 
+#[derive(Default)]
+struct AccA {
+    covered: BTreeSet<String>,
+    not_executed: BTreeMap<String, String>,
+    per_sched: BTreeMap<String, u64>,
+    labels: BTreeSet<String>,
+    viols: Vec<(String, String, Value)>,
+    fps: Vec<u64>,
+    samples: Vec<Value>,
+    ok: u64,
+    evals: u64,
+}
+
+const A_SCHEDS: [&str; 4] = ["default", "unit", "fingerprint-a", "fingerprint-b"];
+
 fn explore_a(ctx: &Ctx) {
     let epar_max = ctx.pick(100, 1000);
-    let mut covered: BTreeSet<String> = BTreeSet::new();
-    let mut not_executed: BTreeMap<String, String> = BTreeMap::new();
-    let mut per_sched: BTreeMap<String, u64> = BTreeMap::new();
-    let mut labels: BTreeSet<String> = BTreeSet::new();
-    for name in ["default", "unit", "fingerprint-a", "fingerprint-b"] {
-        let s = schedule(name);
-        for var in variants() {
+    let vars = variants();
+    let mut tot = AccA::default();
+    // one work item per (schedule, world variant); merged in index order
+    space::par_chunks(
+        (A_SCHEDS.len() * vars.len()) as u64,
+        1,
+        AccA::default,
+        |idx, acc| {
+            let name = A_SCHEDS[idx as usize / vars.len()];
+            let var = vars[idx as usize % vars.len()];
+            let s = schedule(name);
             let (env, cs) = match guard::catch_any(|| variant_cases(&s, var, epar_max)) {
                 Ok(x) => x,
                 Err(m) => panic!("part (a) preparation failed for {name}/{var:?}: {m}"),
             };
             for c in &cs {
-                ctx.evals(1);
+                acc.evals += 1;
                 match run_case(&s, &env, c) {
                     AOutcome::Ok { cost } => {
-                        covered.insert(c.op.clone());
-                        *per_sched.entry(name.to_string()).or_insert(0) += 1;
-                        ctx.outcome("a:charged-as-reference", 1);
-                        ctx.fp_of(&(0u8, name, var, &c.label, cost));
-                        labels.insert(c.label.clone());
+                        acc.covered.insert(c.op.clone());
+                        *acc.per_sched.entry(name.to_string()).or_insert(0) += 1;
+                        acc.ok += 1;
+                        acc.fps.push(hash64(&(0u8, name, var, &c.label, cost)));
+                        acc.labels.insert(c.label.clone());
                         if name == "fingerprint-a"
                             && ["MCP/script/1000", "SWW/contract/unset cold", "CALL/script/B[1000] no coins"]
                                 .contains(&c.label.as_str())
                         {
-                            ctx.sample(json!({"part": "a", "sched": name, "case": c.label, "word": format!("{:#010x}", c.raw), "charged": cost}));
+                            acc.samples.push(json!({"part": "a", "sched": name, "case": c.label, "word": format!("{:#010x}", c.raw), "charged": cost}));
                         }
                     }
                     AOutcome::NotExecuted(why) => {
-                        ctx.outcome("a:not-executed", 1);
-                        not_executed.insert(format!("{name}:{}", c.label), why);
+                        acc.not_executed.insert(format!("{name}:{}", c.label), why);
                     }
                     AOutcome::Violation { key, what } => {
-                        ctx.outcome("a:VIOLATION", 1);
-                        ctx.violation(key, what, a_case_json(&s, var, c));
+                        acc.viols.push((key, what, a_case_json(&s, var, c)));
                     }
                 }
             }
-        }
+        },
+        |a| {
+            tot.covered.extend(a.covered);
+            tot.not_executed.extend(a.not_executed);
+            for (k, n) in a.per_sched {
+                *tot.per_sched.entry(k).or_insert(0) += n;
+            }
+            tot.labels.extend(a.labels);
+            tot.ok += a.ok;
+            tot.evals += a.evals;
+            ctx.fps_merge(a.fps);
+            for s in a.samples {
+                ctx.sample(s);
+            }
+            if !a.viols.is_empty() {
+                ctx.outcome("a:VIOLATION", a.viols.len() as u64);
+            }
+            for (k, w, c) in a.viols {
+                ctx.violation(k, w, c);
+            }
+        },
+    );
+    ctx.evals(tot.evals);
+    ctx.outcome("a:charged-as-reference", tot.ok);
+    if !tot.not_executed.is_empty() {
+        ctx.outcome("a:not-executed", tot.not_executed.len() as u64);
     }
+    let AccA { covered, not_executed, per_sched, labels, .. } = tot;
     // coverage of the opcode space
     let mut all: Vec<String> = vec![];
     let mut unknown: Vec<String> = vec![];
@@ -306,15 +349,22 @@ fn do_program(st: &Setup, k: u32, idx: u64, full_sweep_len: usize, ctx: &Ctx, ac
     for l in limits {
         acc.limits += 1;
         let t = one_run(st, k, &seq, &script, l, Some(&u), acc);
-        if acc.samples.len() < 2
+        let want_second = match st.sched.name {
+            "default" => 15,
+            "unit" => 7,
+            _ => 14,
+        };
+        if acc.samples.is_empty()
             && seq.len() == 2
+            && seq[1] == want_second
             && t.steps.last().map(|s| s.in_call && is_oog(&s.step)).unwrap_or(false)
             && t.steps.len() > st.prelude_len + 3
         {
+            let last = t.steps.last().unwrap();
             acc.samples.push(json!({
                 "part": "c", "sched": st.sched.name, "program": program_names(&st.alphabet, &seq), "limit": l,
                 "reference_limit": st.l_big, "steps": t.steps.len(),
-                "last_step": {"op": t.steps.last().unwrap().opname, "cgas_before": t.steps.last().unwrap().c0, "reference_cost": t.steps.last().unwrap().refc, "outcome": "OutOfGas in callee, $cgas -> 0"},
+                "last_step": {"op": last.opname, "cgas_before": last.c0, "ggas_before": last.g0, "reference_cost": last.refc, "outcome": "OutOfGas in callee", "cgas_after": last.c1, "ggas_after": last.g1},
                 "gas_used": l - t.final_ggas(),
             }));
         }
@@ -358,7 +408,7 @@ fn explore_bc(ctx: &Ctx) {
                 total.skipped += a.skipped;
                 total.step_capped += a.step_capped;
                 for s in a.samples {
-                    if total.samples.len() < 2 {
+                    if total.samples.is_empty() {
                         total.samples.push(s);
                     }
                 }
